@@ -184,8 +184,23 @@ func TestC17_Search(t *testing.T) {
 		}
 		nSearch := rapid.IntRange(1, 4).Draw(t, "searches")
 		// the home may already hold a history: a healthy one, one from another version, or a damaged file
-		histStart := rapid.SampledFrom([]string{"absent", "absent", "absent", "healthy", "foreign-limit", "cut-off", "garbage", "wrong-types", "empty"}).Draw(t, "history-file")
-		if histStart != "absent" {
+		histStart := rapid.SampledFrom([]string{"absent", "absent", "absent", "healthy", "foreign-limit", "cut-off", "garbage", "wrong-types", "empty", "full", "full", "full-future", "full-mixed"}).Draw(t, "history-file")
+		histMax := 100
+		if strings.HasPrefix(histStart, "full") {
+			// a history at its bound (2, 3 or 100 entries) - with ordinary dates, with dates a machine whose
+			// clock ran ahead left behind, or with both: the next search is still the newest entry
+			histMax = rapid.SampledFrom([]int{2, 3, 100}).Draw(t, "full-max")
+			var ents []string
+			for i := 0; i < histMax; i++ {
+				year := 2024
+				if histStart == "full-future" || (histStart == "full-mixed" && i%2 == 1) {
+					year = 2099
+				}
+				ents = append(ents, fmt.Sprintf(`{"query":"stored search %d","timestamp":"%d-01-02T03:%02d:%02dZ","results_count":%d}`, i, year, i/60, i%60, i%4))
+			}
+			os.MkdirAll(filepath.Dir(h.History()), 0o755)
+			os.WriteFile(h.History(), []byte(fmt.Sprintf(`{"entries":[%s],"max_size":%d}`, strings.Join(ents, ","), histMax)), 0o644)
+		} else if histStart != "absent" {
 			os.MkdirAll(filepath.Dir(h.History()), 0o755)
 			healthy := `{"entries":[{"query":"older search","timestamp":"2024-01-02T03:04:05Z","results_count":2},{"query":"old search","timestamp":"2024-01-02T03:05:05Z","results_count":1,"context":"git"}],"max_size":100}`
 			content := map[string]string{"healthy": healthy, "foreign-limit": strings.Replace(healthy, `"max_size":100`, `"max_size":0`, 1), "cut-off": healthy[:len(healthy)/2],
@@ -435,8 +450,8 @@ func TestC17_Search(t *testing.T) {
 				if len(nowHist) != len(prevHist) {
 					t.Fatalf("an immediately repeated search added an entry (%d -> %d); %s", len(prevHist), len(nowHist), ctx)
 				}
-			case len(nowHist) != len(prevHist)+1:
-				t.Fatalf("history grew from %d to %d entries for one search; %s", len(prevHist), len(nowHist), ctx)
+			case len(nowHist) != len(prevHist)+1 && !(len(prevHist) == histMax && len(nowHist) == histMax):
+				t.Fatalf("history grew from %d to %d entries for one search (maximum %d); %s", len(prevHist), len(nowHist), histMax, ctx)
 			}
 			prevHist = nowHist
 			lastArgsQ = argsQ
